@@ -137,6 +137,9 @@ def run_cases(fn, cases, warm_cases=(), procs=None, chunk=None, stall=240, group
 
 
 def _run_jobs(jobs, n, procs, stall):
+    # "no progress" is judged per completed job: allow 0.5 s per case of the largest job (grouped jobs hold whole
+    # dtype groups, and a worker compiles its kernels first) on top of the base allowance
+    stall = max(stall, stall + int(0.5 * max((len(j[1]) for j in jobs), default=0)))
     results = [None] * n
     ctx = mp.get_context("fork")
     failed = []
